@@ -154,6 +154,8 @@ def corner_case(r, cid, source, chain, term, nt, cs, n, design, trail=True):
         term = "red:" + ("min" if ty != "val" else r.choice(["add", "min", "xor"]))
     elif term == "ci":
         term = "ci:%s:%s" % (r.choice("vsf"), "7/8/9")
+    elif term in ("minkey", "maxkey"):
+        term = term + ":3"
     elif term in ("find", "findix", "any"):
         term = term + ":" + r.choice(["Fg:%d" % half, "Fa", "F:3:2"])
     elif term == "all":
@@ -181,6 +183,12 @@ def gen_cases(tier, seed, shapes=None, per_shape=None):
             ls = lens if k % 8 else [100, 257, 1000]
             cases.append(gen_case(r, cid, src, ch, ls))
             cid += 1
+        # by-key extrema with certain ties, sequentially and in parallel (ascending input, key = value mod 3)
+        if src in ("vec", "slice", "iterx") and len(ch) <= 1 and "X" not in ch:
+            for term in ["maxkey", "minkey"]:
+                for nt in [1, 3]:
+                    cases.append(corner_case(r, cid, src, ch, term, nt, ("C", 2), 24, "alt"))
+                    cid += 1
         # astronomically large exact chunk sizes on sources of known length (the shared position must not wrap)
         if gen_harness.SOURCES[src][2] and len(ch) <= 1 and src not in gen_harness.PRE_SOURCES:
             for term in ["cv", "cx", "cnt", "red"]:
